@@ -4,6 +4,7 @@
 From Coq Require Import List ZArith NArith Bool.
 Import ListNotations.
 From Verif Require C01.Lisp C01.Py C01.Gen C01L.LLisp C01L.LPy C01L.LGen C01X.XLisp C01X.XPy C01X.XGen.
+From Verif Require C01C.CLisp C01C.CPy C01C.CGen.
 From Verif Require Export C01.FCorr.
 
 Inductive case :=
@@ -14,6 +15,9 @@ Inductive case :=
                                            (simulation theorem); f is the same program in the full
                                            fragment, used where the C01X semantics is undefined
                                            (type errors raised by primitives, recur through try) *)
+| CC (e : Verif.C01C.CLisp.cexpr) (f : FLisp.expr)
+                                        (* core + fn*/closures/invocation: model of C01C/CGen.v (simulation
+                                           theorem); f as for CX *)
 | CF (e : FLisp.expr).                  (* full fragment: executable model only *)
 Definition out := result.
 
@@ -43,8 +47,18 @@ Definition spec (c : case) : out :=
       | Some (Verif.C01X.XLisp.OExc c _, t) => RExc c (map obs_s t)
       | _ => FCorr.spec f
       end
+  | CC e f =>
+      match Verif.C01C.CGen.ceval_obs 300 e with
+      | Some (o, t) => RVal o t
+      | None => FCorr.spec f
+      end
   | CF e => FCorr.spec e
   end.
+
+(** the C01C model abstracts munge as injective: it is used only for programs without a munge
+    collision between a parameter and another name (hazard bit 4 of the full model, F-01c) *)
+Definition c_defined (e : Verif.C01C.CLisp.cexpr) (f : FLisp.expr) : bool :=
+  match Verif.C01C.CGen.ceval_obs 300 e with Some _ => N.eqb (N.land (FCorr.tag f) 4) 0 | None => false end.
 
 Definition x_defined (e : Verif.C01X.XLisp.xexpr) : bool :=
   match Verif.C01X.XLisp.xeval 300 (fun _ => None) e with
@@ -64,6 +78,13 @@ Definition model (c : case) : out :=
         | None => RStuck
         end
       else FCorr.model f
+  | CC e f =>
+      if c_defined e f then
+        match Verif.C01C.CGen.crun 300 e with
+        | Some (o, t) => RVal o t
+        | None => RStuck
+        end
+      else FCorr.model f
   | CF e => FCorr.model e
   end.
 
@@ -72,5 +93,6 @@ Definition tag (c : case) : N :=
   | CS e => if Verif.C01.Gen.hazard_free e then 0%N else 1%N
   | CL e => if Verif.C01L.LGen.hazard_free e then 0%N else 1%N
   | CX e f => if x_defined e && Verif.C01X.XGen.hazard_free e then 0%N else FCorr.tag f
+  | CC e f => if c_defined e f && Verif.C01C.CGen.hazard_free e then 0%N else FCorr.tag f
   | CF e => FCorr.tag e
   end.
